@@ -13,6 +13,7 @@ import (
 	"github.com/zeebo/bencode"
 
 	"github.com/jech/storrent/httpclient"
+	wire "github.com/jech/storrent/protocol"
 )
 
 // HTTP represents a tracker accessed over HTTP or HTTPS.
@@ -142,7 +143,7 @@ func announceHTTP(ctx context.Context, protocol string, tracker *HTTP,
 		return 0, errors.New(r.Status)
 	}
 
-	decoder := bencode.NewDecoder(r.Body)
+	decoder := bencode.NewDecoder(wire.LimitBencodeDepth(r.Body))
 	var reply httpReply
 	err = decoder.Decode(&reply)
 	if err != nil {
